@@ -4,6 +4,7 @@
 EXTENDS EqSolve
 
 H_All   == HomogRx
+H_Shapes == HomogRx \cup ShapeRx
 S_All   == {12, 13, 14, 15, 16, 17}
 W_None  == { {} }
 W_Water == { {}, {1} }
@@ -13,6 +14,7 @@ KS_Q    == {-2, 0, 1}
 KS_Wide == {-3, -1, 0, 1, 3}
 I_Few   == << <<1, -3>>, <<5, -3>>, <<2, -2>>, <<3, -4>>, <<8, -2>> >>
 I_Many  == << <<1, -3>>, <<5, -3>>, <<2, -2>>, <<3, -4>>, <<8, -2>>, <<1, -1>>, <<1, -6>>, <<0, 0>>, <<2, 0>> >>
+I_Pos   == << <<1, -3>>, <<5, -3>>, <<2, -2>>, <<3, -4>>, <<8, -2>>, <<1, -1>>, <<1, -5>>, <<7, -1>>, <<4, -4>> >>
 IP_Few  == { <<1, 0>>, <<2, 1>>, <<3, 2>> }
 IP_Many == { <<1, 0>>, <<2, 1>>, <<3, 2>>, <<1, 3>>, <<4, 1>>, <<5, 4>>, <<7, 3>> }
 SI_None == { <<0, 0>> }
